@@ -37,3 +37,7 @@ extern bool g_fips_build;
 
 // symbol lookup in the linked library (harness is linked with -rdynamic; dlsym(RTLD_DEFAULT))
 void *libsym(const char *name, bool required = true);
+std::string addr_to_sym(uintptr_t addr);
+bool section_range(const char *name, uintptr_t *lo, uintptr_t *hi);
+std::vector<std::pair<std::string, uintptr_t>> symbols_in(uintptr_t lo, uintptr_t hi);
+std::vector<std::string> symbols_matching(const char *prefix, const char *suffix);
